@@ -132,7 +132,6 @@ func lemmaBackoffMono(T, i, j int) {
 //@   ensures[matched] result == nil ==> match == nil || specMatch(match, response)
 //@   ensures[one-send] sends() == s0 + 1 ==> sentAt() == t0 && len(lastSent()) >= 4 && lastSent()[0:1] == specByte(MT) && lastSent()[1:4] == X && lastSentTo() == net.Addr(dest)
 //@   ensures[in-use] old(has(c.pending, msg.TransactionID)) ==> result != nil && sends() == s0 && now() == t0
-//@   loop 0 invariant[timer] isTimer(deadline) && fireAt(deadline) == t0 + int(timeout)
 //@   loop 0 invariant[time] t0 <= now() && now() <= t0 + int(timeout)
 //@   loop 0 invariant[sent] sends() == s0 + 1 && sentAt() == t0 && len(lastSent()) >= 4 && lastSent()[0:1] == specByte(MT) && lastSent()[1:4] == X && lastSentTo() == net.Addr(dest) && !old(has(c.pending, msg.TransactionID))
 
